@@ -1,4 +1,4 @@
-import BtcwVerif.Model.AddrDeriveStep
+import BtcwVerif.Model.AddrTx
 -- engine: addrmgr-derive
 import Driver.Proto
 open Proto AddrDerive AddrSym
@@ -6,13 +6,13 @@ open Proto AddrDerive AddrSym
 namespace EngAddrDerive
 
 /-- the free HD instance: a key is the list of child numbers from its root (`[0]` = the seed's master key,
-    `[1000000+x]` = foreign account key number `x`); every child is valid. -/
+    `[1000000+x]` = foreign account key number `x`); every child is valid, hardened children only from private keys. -/
 abbrev Key := List Nat
 
-def freeHD : HD Key Key := { child := fun k i => some (k ++ [i]), neuter := id, pubChild := fun p i => some (p ++ [i]) }
+def freeHD : HD Key Key :=
+  { child := fun k i => some (k ++ [i]), neuter := id, pubChild := fun p i => if i < H then some (p ++ [i]) else none }
 
 structure DS where
-  cfg : Cfg
   st : State Key Key
 
 def parseScope (s : String) : Option Scope :=
@@ -30,10 +30,6 @@ def parseSchema (s : String) : Option (Option Schema) :=
   | _ => none
 
 def parseBool (s : String) : Option Bool := if s == "1" then some true else if s == "0" then some false else none
-
-def parseCfg (s : String) : Cfg :=
-  let fl := s.splitOn ","
-  { f3 := fl.contains "f3", f2 := fl.contains "f2", u2 := fl.contains "u2", o1 := fl.contains "o1", t1 := fl.contains "t1", l1 := fl.contains "l1" }
 
 /-- resolve an address reference against the model state (what the Go harness does with its derivation oracle) -/
 def resolveRef (s : State Key Key) (sc : Scope) (r : String) : Option (AddrId Key) :=
@@ -117,23 +113,38 @@ def stepLine (d : DS) (line : String) : DS × String :=
   let t := words line
   match t.head? with
   | some "create" =>
-    let cfg := parseCfg ((kv t "q").getD "-")
-    let (s, r, rows) := step cfg freeHD emptyState (.create [0])
-    ({ cfg := cfg, st := s }, showRes r ++ " || " ++ showRows rows)
+    -- (`q=` lists what the Go engine's probes saw on the working tree; the model is the fixed tree whatever it says,
+    --  so a reverted fix shows up as a disagreement on top of the Go oracle's violation)
+    let (s, r, rows) := step Cfg.fixed freeHD emptyState (.create [0])
+    ({ st := s }, showRes r ++ " || " ++ showRows rows)
   | some "recreate" =>
     -- a second wallet created from the same seed issues the same addresses (C03_recreate_same): the model's
     -- issuance is a function of the root key alone, so the answer is constant
     if !d.st.created then (d, "err notcreated || ") else
     if d.st.poisoned then (d, "err poisoned || ") else (d, "ok || ")
+  | some "rectx" =>
+    -- the transaction store records a transaction paying to an address: no address-manager row, the wtxmgr rows
+    -- (after " ## ") show the address id in the clear
+    if !d.st.created then (d, "err notcreated || ") else
+    if d.st.poisoned then (d, "err poisoned || ") else
+    match ((kv t "s").bind parseScope), (kv t "ref") with
+    | some sc, some r =>
+      match refDesc sc r with
+      | none => (d, "bad-op")
+      | some desc =>
+        let (s, res, rows) := wstep Cfg.fixed freeHD d.st (.recordTx desc)
+        ({ st := s }, showRes res ++ " || " ++ showRows ((rows.filter (·.1 == Ns.waddrmgr)).map (·.2)) ++ " ## " ++
+          showRows ((rows.filter (·.1 == Ns.wtxmgr)).map (·.2)))
+    | _, _ => (d, "bad-op")
   | _ =>
     if !d.st.created then (d, "err notcreated || ") else
     if d.st.poisoned then (d, "err poisoned || ") else
     match parseOp d.st t with
     | none => (d, "bad-op")
     | some op =>
-      let (s, r, rows) := step d.cfg freeHD d.st op
-      ({ d with st := s }, showRes r ++ " || " ++ showRows rows)
+      let (s, r, rows) := step Cfg.fixed freeHD d.st op
+      ({ st := s }, showRes r ++ " || " ++ showRows rows)
 
-def run (i o : IO.FS.Stream) : IO Unit := loop i o ({ cfg := {}, st := emptyState } : DS) stepLine
+def run (i o : IO.FS.Stream) : IO Unit := loop i o ({ st := emptyState } : DS) stepLine
 
 end EngAddrDerive
